@@ -1259,7 +1259,22 @@ async fn run_scenario(sc: &Scenario, sink: &Sink) {
                             break;
                         }
                     }
-                    sink.emit(json!({"e":"flood_done","c":st.c,"requests_written":sent}));
+                    // the peer's writes stalling is not yet the session being parked in its write (socket buffers keep
+                    // growing for a while): wait until the library has stopped calling the handlers altogether
+                    let mut quiet = 0;
+                    let mut last = sink.progress();
+                    let t0 = std::time::Instant::now();
+                    while quiet < 3 && t0.elapsed() < Duration::from_secs(20) {
+                        tokio::time::sleep(Duration::from_millis(150)).await;
+                        let now = sink.progress();
+                        if now == last {
+                            quiet += 1;
+                        } else {
+                            quiet = 0;
+                            last = now;
+                        }
+                    }
+                    sink.emit(json!({"e":"flood_done","c":st.c,"requests_written":sent,"parked_after_ms":t0.elapsed().as_millis() as u64}));
                     flooders.insert(st.c);
                 }
             }
